@@ -1,9 +1,11 @@
 #!/usr/bin/env python3
 """Copy confirmed agent-made mutants from /tmp/mut/out into /verif/seeded/<prop>-<variant>/ with meta.json."""
 import json, os, shutil, sys
-SRC = "/tmp/mut/out"; DST = "/verif/seeded"
+SRC = (sys.argv[1] if len(sys.argv) > 1 else "/tmp/mut") + "/out"; DST = "/verif/seeded"
+VARIANTS = tuple(sys.argv[2].split(",")) if len(sys.argv) > 2 else ("A", "B", "C", "D")
+BASE = sys.argv[3] if len(sys.argv) > 3 else "bb5212a (pinned tree, before any fix: commit)"
 for prop in sorted(os.listdir(SRC)):
-    for var in ("A", "B", "C", "D"):
+    for var in VARIANTS:
         d = os.path.join(SRC, prop, var)
         if not os.path.exists(os.path.join(d, "verify.txt")):
             continue
@@ -18,9 +20,9 @@ for prop in sorted(os.listdir(SRC)):
         shutil.copy(os.path.join(d, "patch.diff"), t); shutil.copy(os.path.join(d, "demo.py"), t)
         notes = open(os.path.join(d, "notes.md")).read() if os.path.exists(os.path.join(d, "notes.md")) else ""
         meta = {"property": prop, "variant": var, "origin": "independent sub-agent given only the property text and a scratch worktree",
-                "base_commit": "bb5212a (pinned tree, before any fix: commit)",
+                "base_commit": BASE,
                 "needs_to_manifest": notes,
-                "confirmed_by_me": {"worktree": f"/tmp/mut/{prop} (scratch, removed afterwards)",
+                "confirmed_by_me": {"worktree": f"{os.path.dirname(SRC)}/{prop} (scratch, removed afterwards)",
                                     "demo_on_clean_tree_exit": 0, "patch_applies": True,
                                     "pinned_suite_with_patch": "81 passed", "demo_with_patch_exit": 1,
                                     "commands": ["git apply patch.diff", "PYTHONPATH=<wt> /venv/bin/python -m pytest -q -p no:cacheprovider --timeout=900 -x",
